@@ -384,7 +384,10 @@ def step (st : St) (op impl : String) : St × StepOut :=
     -- ---------------- monitors (ghost: the spec of the op + the scripted stream only)
     let mut fails : List (String × String × String) := []
     let mut st := st
-    let judged := if pred.err ≠ "" then 0 else if im.err.startsWith "E:" then min pred.n im.dgrams.size else im.dgrams.size
+    -- monitors judge what the implementation emitted; when the model expects the dial to be refused for its packet
+    -- number but datagrams went out, they are judged all the same (the flight cannot be opened)
+    let judged := if pred.err == "E:pnfit" then (if im.err == "E:pnfit" then 0 else im.dgrams.size)
+      else if pred.err ≠ "" then 0 else if im.err.startsWith "E:" then min pred.n im.dgrams.size else im.dgrams.size
     let mut largest : Int := 0        -- a server's opener starts at 0 (quic-go) and tracks the largest opened
     let mut prevMinOff : Option Nat := none
     let mut prevPlanCrypto : Nat := 0
